@@ -312,4 +312,57 @@ example : phFromEthernet (memOf [1,2,3]) ([1,2,3] : Bytes).length =
 
 end HeadersEthernetVsEtherType
 
+/-! ### the Linux SLL door of `LaxPacketHeaders` (the only struct door with an SLL start) -/
+
+/-- what `LaxPacketHeaders::from_linux_sll` makes of the result of `LaxPacketHeaders::from_ether_type` on the
+    bytes behind the 16 byte SLL header: every window moved by 16, the offset of a length stop error
+    moved by 16, the link is the SLL header -/
+def laxSllOfEtherTypeHeaders (h : Headers) : Headers :=
+  { p := (stopAddOff 16 (shPacket 16 h.p)).setLink (.sll ⟨0, 16⟩), pay := shPay 16 h.pay }
+
+/-- **`LaxPacketHeaders::from_linux_sll` = `LaxPacketHeaders::from_ether_type` on the bytes behind the SLL
+    header, shifted by 16**, whenever the SLL header is accepted and its protocol field is an ether type
+    (ARP hardware type Ethernet, protocol not one of the Linux non-standard numbers) -/
+theorem lax_headers_linux_sll_start_equals_ether_type_start (b : Bytes) (et : Nat) (w : Win)
+    (hs : sllFromSlice (memOf b) 0 b.length = .ok w)
+    (hp : sllProtoOf (g16 (memOf b) 2) (g16 (memOf b) 14) = .ok (.etherType et)) :
+    lphFromLinuxSll (memOf b) b.length =
+      .ok (laxSllOfEtherTypeHeaders (lphFromEtherType (memOf (b.drop 16)) et 0 (b.drop 16).length)) := by
+  rw [EpModel.Lemmas.ShiftEntry.memOf_drop_eq, List.length_drop]
+  unfold lphFromLinuxSll
+  rw [hs]
+  simp only [hp]
+  rw [show (16 : Nat) = 16 + 0 from rfl, lphFromEtherType_sh 16 (memOf b) (shM 16 (memOf b)) (fun _ => rfl)]
+  simp only [laxSllOfEtherTypeHeaders, shHeaders]
+
+/-- any other accepted protocol field (netlink, GRE, radiotap / FRAD, a Linux non-standard number): nothing
+    behind the header is decoded, the payload is everything behind the 16 bytes -/
+theorem lax_headers_linux_sll_start_other_protocol (b : Bytes) (w : Win)
+    (hs : sllFromSlice (memOf b) 0 b.length = .ok w)
+    (hp : ∀ et, sllProtoOf (g16 (memOf b) 2) (g16 (memOf b) 14) ≠ .ok (.etherType et)) :
+    lphFromLinuxSll (memOf b) b.length =
+      .ok { p := Packet.empty.setLink (.sll ⟨0, 16⟩), pay := .linuxSll ⟨16, b.length - 16⟩ } := by
+  unfold lphFromLinuxSll
+  rw [hs]
+  cases hx : sllProtoOf (g16 (memOf b) 2) (g16 (memOf b) 14) with
+  | error e => rfl
+  | ok pr =>
+    cases pr with
+    | etherType et => exact absurd hx (hp et)
+    | _ => rfl
+
+/-- a rejected SLL header is the door's error, unchanged -/
+theorem lax_headers_linux_sll_start_rejected (b : Bytes) (e : PErr)
+    (hs : sllFromSlice (memOf b) 0 b.length = .error e) : lphFromLinuxSll (memOf b) b.length = .error e := by
+  unfold lphFromLinuxSll
+  rw [hs]
+
+set_option maxRecDepth 8000 in
+/-- the hypotheses are met by a real header: SLL (outgoing, ARP hardware type Ethernet, protocol 0x0800) -/
+example :
+    sllFromSlice (memOf [0, 4, 0, 1, 0, 6, 1, 2, 3, 4, 5, 6, 0, 0, 8, 0, 0x45, 0]) 0 18 = .ok ⟨0, 18⟩ ∧
+    sllProtoOf (g16 (memOf [0, 4, 0, 1, 0, 6, 1, 2, 3, 4, 5, 6, 0, 0, 8, 0, 0x45, 0]) 2)
+      (g16 (memOf [0, 4, 0, 1, 0, 6, 1, 2, 3, 4, 5, 6, 0, 0, 8, 0, 0x45, 0]) 14) = .ok (.etherType 0x0800) := by
+  exact ⟨rfl, rfl⟩
+
 end EpModel.Props.C06
